@@ -92,6 +92,10 @@ func runC03(r *Run, replay *Case) {
 			c03TypeHistory(r)
 			return
 		}
+		if replay.Input["stream"] == "operand-history" {
+			c03OperandHistory(r)
+			return
+		}
 		if replay.Input["stream"] == "pathcond" {
 			for _, sh := range c03PathShapes() {
 				if sh.name == replay.Input["shape"] {
@@ -111,4 +115,5 @@ func runC03(r *Run, replay *Case) {
 	c03Chains(r)
 	c03PathConds(r)
 	c03TypeHistory(r)
+	c03OperandHistory(r)
 }
